@@ -596,8 +596,10 @@ def compare(exp, obs, case):
                 ident = _strip_identity(ev_) == _strip_identity(ov_)
                 out.append(("body-args-differ" + (":identity-only" if ident else ""),
                             {"params": [k], "expected": {k: ev_}, "observed": {k: ov_}}))
+        args_value_diff = any(k == "body-args-differ" for k, _ in out)
         if er is None and orr is None:
-            if exp["result"] != obs["result"]:
+            # (a result that differs because the body was handed different values is the same discrepancy)
+            if exp["result"] != obs["result"] and not args_value_diff:
                 ident = _strip_identity(exp["result"]) == _strip_identity(obs["result"])
                 out.append(("result-differs" + (":identity-only" if ident else ""), {"expected": exp["result"], "observed": obs["result"],
                                                "observed_equals_unvalidated_body_output": obs["result"] == obs["raw_out"]
@@ -620,7 +622,8 @@ def compare(exp, obs, case):
         elif er != "schema-any" and er != orr:
             out.append(("wrong-error-class", brief))
     multi_rejected = exp.get("stage") == "input" and exp.get("n_designated", 1) >= 2
-    if exp["caller_state"] != obs["caller_state"] and not multi_rejected:
+    # compared only when nothing else is off: after another discrepancy the caller's objects differ as a consequence
+    if exp["caller_state"] != obs["caller_state"] and not multi_rejected and not out:
         out.append(("caller-objects-state-differs", {"expected": exp["caller_state"], "observed": obs["caller_state"]}))
     if obs.get("was_coroutine") is not None and obs["was_coroutine"] != is_async:
         out.append(("awaitability-changed", {"async": is_async, "returned_coroutine": obs["was_coroutine"]}))
